@@ -39,13 +39,33 @@ Definition run_verify_expiry (args : list bytes) : bytes :=
   | _ => bs "badargs"
   end.
 
+(* [srv; loc; key; user; now]: a token issued under server name loc (now, 3600 s), validated at once
+   by a server that names itself srv (empty: gives no name) *)
+Definition run_validate_at (args : list bytes) : bytes :=
+  match args with
+  | [srv; loc; key; user; now] =>
+      verdict (t_validate_at srv loc key user (z_of now) (t_issue key user (z_of now) 3600))
+  | _ => bs "badargs"
+  end.
+
+(* specification: the token authenticates the issuing server - a validating server that names
+   itself accepts it exactly when that is the name it was issued under *)
+Definition prop_validate_at (args : list bytes) : bytes :=
+  match args with
+  | [srv; loc; key; user; now; impl] =>
+      let want := match srv with [] => true | _ => bytes_eqb srv loc end in
+      if bytes_eqb impl (verdict want) then bs "ok"
+      else bs "FAIL want=" ++ verdict want ++ bs " impl=" ++ impl
+  | _ => bs "badargs"
+  end.
+
 (* property oracle (specification side, closed form; does not use the model's caveat loop):
    [key; user; t0; d; key'; user'; now; extra; impl verdict] *)
 Definition prop_validate_issued (args : list bytes) : bytes :=
   match args with
   | [key; user; t0; d; key'; user'; now; extra; impl] =>
       let want := bytes_eqb key key' && bytes_eqb user user'
-                  && (z_of now <? z_of t0 + duration_of (z_of d))%Z
+                  && (z_of now <? Z.min (z_of t0 + duration_of (z_of d)) (2 ^ 63 - 1))%Z
                   && match extra with [] => true | _ => false end in
       if bytes_eqb impl (verdict want) then bs "ok"
       else bs "FAIL want=" ++ verdict want ++ bs " impl=" ++ impl
@@ -60,7 +80,7 @@ Definition prop_issue (args : list bytes) : bytes :=
   | [key; user; t0; d; impl] =>
       let dur := if (z_of d =? 0)%Z then 120%Z else z_of d in
       let want := join_bytes nl [user; bs "gen = 1"; bs "user_id = " ++ user;
-                                 bs "time < " ++ print_int (z_of t0 + dur)%Z] in
+                                 bs "time < " ++ print_int (Z.min (z_of t0 + dur) (2 ^ 63 - 1))%Z] in
       if bytes_eqb impl want then bs "ok" else bs "FAIL want=" ++ want
   | _ => bs "badargs"
   end.
@@ -95,7 +115,10 @@ Definition ops_C20 : list (bytes * (list bytes -> bytes)) :=
     (bs "C20.issue", run_issue);
     (bs "C20.validate_issued", run_validate_issued);
     (bs "C20.verify_expiry", run_verify_expiry);
+    (bs "C20.validate_at", run_validate_at);
+    (bs "C20.prop.validate_at", prop_validate_at);
     (bs "C20.const_refused", fun _ => bs "refused");
+    (bs "C20.const_ok", fun _ => bs "ok");
     (bs "C20.prop.validate_issued", prop_validate_issued);
     (bs "C20.prop.validate_minted", prop_validate_minted);
     (bs "C20.prop.issue", prop_issue) ].
